@@ -130,13 +130,23 @@ def execute_helpers(case, t):
 
 def _strategy():
     return gen.e2e_config(front=("single", "joint", "joint"), max_N=4, max_W=7, max_K=4, t_range=(30, 110),
-                          limits=(1, 2, 3, 4), betas=(0.0, 1.0, 5.0, 25.0, 200.0), allow_short=True)
+                          limits=(1, 1, 2, 3, 4), betas=(0.0, 1.0, 5.0, 25.0, 200.0), allow_short=True,
+                          beta_forms=("scalar", "vector"), joint_vector=True)
+
+
+def execute_wide(case, t):
+    execute(case, t)
+    T = case["lengths"][0]
+    t.cls("rows<sensors" if T < case["N"] else ("rows==sensors" if T == case["N"] else "rows>sensors"))
 
 
 SUBCHECKS = [
     SubCheck(name="front_end_shapes", strategy=_strategy, execute=execute,
              budget={"quick": 160, "thorough": 3200}, shards={"quick": 16, "thorough": 8}, modes=E2E_MODES,
              min_nontrivial_fraction=0.3),
+    SubCheck(name="front_end_shapes_series_wider_than_long", strategy=gen.e2e_wide_series_config, execute=execute_wide,
+             budget={"quick": 32, "thorough": 400}, shards={"quick": 8, "thorough": 8}, modes=E2E_MODES,
+             min_nontrivial_fraction=0.1),
     SubCheck(name="pad_split_helpers_enumerated", enumerate=enumerate_helpers, execute=execute_helpers, exhaustive=True,
              budget={"quick": 1, "thorough": 1}, shards={"quick": 1, "thorough": 1}, modes=["jit"]),
 ]
